@@ -360,8 +360,12 @@ def index_case(ctx, be, kind, case, mo):
     sreq = sorted(set(tuple(tuple(p) for p in r) for r in mo[3]))
     all_blocks = set(itertools.product(*[list(zip(np.cumsum((0,) + c[:-1]).tolist(), np.cumsum(c).tolist())) for c in chunks]))
     spec = conv(dtype, np.array(mo[4], dtype=np.int64).reshape(exp_shape))
-    # tie: implementation vs model
-    if isinstance(out, Exception):
+    # tie: implementation vs model.  Only for non-empty selections: for empty ones the model follows the unrepaired
+    # _prune_chunks (findings C07-F2/F3; a repair "keep at least one chunk" changes what is requested there), and the
+    # theorems carry the non-empty guard anyway.  The property comparison below is made for every selection.
+    if empty:
+        pass
+    elif isinstance(out, Exception):
         if mo[2][0] == 0 and not (kind == 'dict'):
             ctx.disagree(sig + 'symptom=tie_raised:%s' % type(out).__name__, case, repr(out)[:200], mo[2], 'raised, model has data', kind='tie')
     elif mo[2][0] == 0:
@@ -370,7 +374,7 @@ def index_case(ctx, be, kind, case, mo):
             ctx.disagree(sig + 'symptom=tie_data', case, out.ravel()[:8].tolist(), md.ravel()[:8].tolist(), 'data differs from model', kind='tie')
     elif kind != 'dict':
         ctx.disagree(sig + 'symptom=tie_data_vs_error', case, out.ravel()[:8].tolist(), mo[2], 'data, model has error', kind='tie')
-    if req != mreq and not isinstance(out, Exception):
+    if req != mreq and not isinstance(out, Exception) and not empty:
         ctx.disagree(sig + 'symptom=tie_requests', case, req[:6], mreq[:6], 'requested chunks differ from model', kind='tie')
     # property: implementation vs spec
     if isinstance(out, Exception):
@@ -773,7 +777,10 @@ def run_witness(ctx, be, w):
 
 def run(ctx):
     if not ctx.model_ok:
-        raise RuntimeError('no model binary: cannot run the correspondence')
+        # broken translator / model build: search with the last model binary that was built (model of the last good tree)
+        from vh import core
+        if not os.path.exists(os.path.join(core.EXTRACT_DIR, 'driver')):
+            raise RuntimeError('no model binary: cannot run the correspondence')
     with c07stores.FakeS3() as s3:
         be = Backends(s3)
         try:
@@ -788,10 +795,14 @@ def run(ctx):
             if ctx.tier == 'thorough':
                 run_gc_exhaustive(ctx)
                 sample = [[7, [6, 5, z]] for z in (0, 7, 99999, 100000, -1, -12345, 10 ** 17)]
-                sample += [[7, [2, codes('x'), [[2, 1], [1, 2]], [3, 100000], [3, 100000]]],
-                           [7, [3, codes('x'), [[2, 2, 2], [1, 1]], [[[1], [5]], [[], []]]]],
-                           [7, [4, [10, 7], 13, 2, [0, 1], 0, [[0, 4]], [[3, 3, 3, 1], [2, 2, 2, 1]]]]]
+                sample += [[7, [2, codes('x'), [[2, 1], [1, 2]], [3, 100000], [3, 100000], 0]],
+                           [7, [3, codes('x'), [[2, 2, 2], [1, 1]], [[[1], [5]], [[], []]], 1]],
+                           [7, [4, [10, 7], 13, 2, [0, 1], 0, [[0, 4]], [[3, 3, 3, 1], [2, 2, 2, 1]]]],
+                           [7, [5, codes('/a_b/c_d/00000_00001.npy')]]]
                 from vh import core
+                with core.BuildLock():      # a clean rebuild of Props/C07.vo leaves other models uncompiled
+                    core.make(' '.join(x[:-2] + '.vo' for x in core.coq_sources() if x.startswith(('Base/', 'Gen/', 'Model/'))))
+                    core.sh('timeout 600 coqc -Q . KV Extract/Dispatch.v', cwd=core.COQ, timeout=700)
                 a = core.run_model_in_coq(sample, 'c07')
                 b = ctx.model(sample)
                 if a != b:
